@@ -261,5 +261,41 @@ def run(ctx):
     v = A.view(gc)
     okg = any(e.kind == 'return' and is_now(e.val) for p in v.paths() for e in v.path_events(p))
     ctx.check(okg, 'R1', 'EngineImpl::get_clock returns now_', where(gc), '', key='R1|get_clock|returns now_')
+    # ---- R7 the two sentinel idioms of solve(), decided on the finite set of orderings their operands can have ------------------------------
+    ctx.rule('R7', 'solve(): the deadline caps the step for every date (only -1 means none); a model event replaces the step iff it is >= 0 and earlier (or the step is still unset)', 2)
+    vs = A.view(solve)
+    cap = [e for eid in range(len(solve['elems'])) for e in vs.events_of(eid) if e.kind == 'assign' and e.lhs[0] == 'var' and e.lhs[2] == 'time_delta' and e.rhs[0] == 'bin' and e.rhs[1] == '-' and
+           e.rhs[2][0] == 'var' and e.rhs[2][1] == 'parm' and is_now(e.rhs[3])]
+    loops = vs.loop_heads()
+    if len(cap) != 1 or not loops:
+        ctx.unrecognised('R7', 'solve(): `time_delta = max_date - now_` not found (%d)' % len(cap))
+    else:
+        pname = cap[0].rhs[2][2]
+        tb = solve['elems'][cap[0].eid]['b']
+        stop = set(h['id'] for h in loops)
+        wrong = []
+        for md, nw_, want in ((-1.0, 0.0, False), (0.0, 0.0, True), (5.0, 0.0, True), (5.0, 5.0, True), (1e-9, 0.0, True)):
+            got = lib.reaches_under(vs, solve['entry'], tb, {pname: md, 'now_': nw_}, stop)
+            if got != want:
+                wrong.append('max_date=%g at now=%g: the step is %s by the deadline' % (md, nw_, 'capped' if got else 'not capped'))
+        ctx.check(not wrong, 'R7', 'solve(): the step is capped by max_date for every date >= now (0 included) and only for -1 it is not', where(solve, cap[0].line), '; '.join(wrong), key='R7|solve|deadline sentinel')
+    upd = [e for eid in range(len(solve['elems'])) for e in vs.events_of(eid) if e.kind == 'assign' and e.lhs[0] == 'var' and e.lhs[2] == 'time_delta' and e.rhs[0] == 'var' and e.rhs[2] == 'next_event']
+    src = [e for eid in range(len(solve['elems'])) for e in vs.events_of(eid) if e.kind == 'assign' and e.lhs[0] == 'var' and e.lhs[2] == 'next_event' and e.decl]
+    if len(upd) != 1 or len(src) != 1:
+        ctx.unrecognised('R7', 'solve(): `time_delta = next_event` not found (%d/%d)' % (len(upd), len(src)))
+    else:
+        sb = solve['elems'][src[0].eid]['b']
+        tb = solve['elems'][upd[0].eid]['b']
+        heads = set(h['id'] for h in loops)
+        wrong = []
+        for tdv in (-1.0, 0.0, 1.0, 3.0):
+            for nev in (-1.0, 0.0, 1.0, 3.0):
+                if nev == tdv and nev >= 0:
+                    continue        # equal dates: either choice gives the same step
+                want = nev >= 0 and (tdv < 0 or nev < tdv)
+                got = lib.reaches_under(vs, sb, tb, {'time_delta': tdv, 'next_event': nev}, heads - {sb})
+                if got != want:
+                    wrong.append('step=%g, model event in %g: the step is %s' % (tdv, nev, 'replaced' if got else 'kept'))
+        ctx.check(not wrong, 'R7', 'solve(): time_delta = next_event iff next_event >= 0 and (time_delta < 0 or next_event < time_delta)', where(solve, upd[0].line), '; '.join(wrong[:4]), key='R7|solve|model event minimum')
     ctx.assume('the value of next_occurring_event of the models (what time_delta is) and sub-precision behaviour are not decided')
     return EXPLANATION
